@@ -2520,6 +2520,7 @@ class Recipe:
             raise ValueError("Invalid destinations.")
 
         delta = 0
+        scale = 1.0  # size of the amounts summed, to tell a real decrease from floating-point noise
 
         if timeframe not in self.stages.keys():
             raise ValueError("Invalid timeframe")
@@ -2547,8 +2548,9 @@ class Recipe:
                     after_substances += step.frm[1].contents.get(substance, 0)
             after_substances += step.trash.get(substance, 0)
             delta += after_substances - before_substances
+            scale += abs(after_substances) + abs(before_substances)
 
-        if round(delta, config.internal_precision) < 0:
+        if delta < -scale * 10 ** -config.internal_precision:
             raise ValueError(
                 f"Destination containers contain {-delta} {from_unit} less of substance {substance}" +
                 " after stage {timeframe}. Did you specify the correct destinations?")
